@@ -56,7 +56,7 @@ package operation
 //@   modifies $tomb
 //@   loop 0 invariant forall id string :: id in result ==> !(id in $tomb)
 //@   ensures result1 == nil ==> fresh(result0)
-//@   ensures[C15.pool.tombstones] result1 == nil ==> result0 != nil && (forall id string :: id in result0 ==> !(id in $tomb))
+//@   ensures[C15.pool.tombstones,C13.pool.tombstones] result1 == nil ==> result0 != nil && (forall id string :: id in result0 ==> !(id in $tomb))
 
 // The tombstone is written before the pool entry is removed, so that no crash point revives a retired operation.
 //@ func (*BaseOperationRepo).DeleteOperation
